@@ -144,7 +144,39 @@ def with_keys(sql, keys):
     return None
 
 
+LIMIT_ORIG = re.compile(r'\s+LIMIT (\d+)(?: OFFSET (\d+))?\s*$')
+LIMIT_REND = (re.compile(r'\s+LIMIT (?P<n>\d+) OFFSET (?P<o>\d+)\s*$'), re.compile(r'\s+LIMIT (?P<o>\d+), (?P<n>\d+)\s*$'),
+              re.compile(r'\s+LIMIT (?P<n>\d+)\s*$'))
+
+
+def split_limit(orig, rend):
+    """a top-level LIMIT/OFFSET makes the result depend on how the engine breaks ties (and, without ORDER BY, on its
+    loop order), so it is judged separately: the numbers must coincide and the statements without it are compared.
+    returns (orig', rend', verdict) -- verdict is None or a difference; (None, None, None) when there is no LIMIT"""
+    mo = LIMIT_ORIG.search(orig)
+    if not mo:
+        return None, None, None
+    want = (int(mo.group(1)), int(mo.group(2) or 0))
+    for rx in LIMIT_REND:
+        mr = rx.search(rend)
+        if mr:
+            got = (int(mr.group('n')), int(mr.groupdict().get('o') or 0))
+            verdict = None if got == want else dict(kind='limit-differs', orig_limit_offset=want, rend_limit_offset=got)
+            return orig[:mo.start()], rend[:mr.start()], verdict
+    return orig[:mo.start()], rend, dict(kind='limit-differs', orig_limit_offset=want, rend_limit_offset=None)
+
+
 def compare_select(db, orig, rend, ordered, alias_names=(), order_keys=None):
+    o2, r2, verdict = split_limit(orig, rend)
+    if o2 is not None:
+        if verdict:
+            return verdict if run_select(db.conns[0], orig)[0] == 'ok' else 'skip-orig-error'
+        a, b = run_select(db.conns[0], orig), run_select(db.conns[0], rend)
+        if a[0] == 'ok' and b[0] == 'ok' and len(a[1]) != len(b[1]):
+            return dict(kind='rows-differ', orig_rows=a[1], rend_rows=b[1])
+        if a[0] == 'ok' and b[0] == 'err':
+            return dict(kind='rendered-text-fails', error=b[1], orig_rows=a[1])
+        orig, rend = o2, r2
     """returns None (agree / not comparable) or a dict describing the difference.
     `ordered`: the statement has a top-level ORDER BY -> lists are compared when the original's own
     result does not depend on the physical row order."""
